@@ -574,6 +574,7 @@ func DispatchShapeIn(p *load.Program, prel, vrel string) *report.RuleResult {
 		versionNil := 0 // 1 nil, 2 non-nil/unknown-but-set
 		defaulted := false
 		usedBeforeDefault := false
+		usedBeforeTest := false
 		var inRange *[2]ver
 		var ctorPkg string
 		parseCalled := false
@@ -601,6 +602,8 @@ func DispatchShapeIn(p *load.Program, prel, vrel string) *report.RuleResult {
 					}
 					if versionNil == 1 && !defaulted {
 						usedBeforeDefault = true
+					} else if versionNil == 0 {
+						usedBeforeTest = true
 					}
 					a, an, ok1 := globalVer(pk, call.Args[0])
 					b, bn, ok2 := globalVer(pk, call.Args[1])
@@ -639,10 +642,21 @@ func DispatchShapeIn(p *load.Program, prel, vrel string) *report.RuleResult {
 							if fn.Name() == "Parse" && ctorPkg != "" {
 								parseCalled = true
 							}
-							if fn.Name() == "NewLexer" {
-								if versionNil == 1 && !defaulted {
-									usedBeforeDefault = true
-								}
+						}
+						// whatever receives the configuration must receive it after the default was decided:
+						// a copy taken while the version can still be nil keeps the nil (seed C09-12)
+						if (versionNil == 1 && !defaulted) || versionNil == 0 {
+							for _, a := range s.Args {
+								ast.Inspect(a, func(y ast.Node) bool {
+									if id, ok := y.(*ast.Ident); ok && cfgObj != nil && info.Uses[id] == cfgObj {
+										if versionNil == 0 {
+											usedBeforeTest = true // harmless on the paths where the version turns out to be given
+										} else {
+											usedBeforeDefault = true
+										}
+									}
+									return true
+								})
 							}
 						}
 					}
@@ -685,6 +699,9 @@ func DispatchShapeIn(p *load.Program, prel, vrel string) *report.RuleResult {
 		}
 		if versionNil == 1 && !defaulted && why == "" {
 			why = "an omitted version is not replaced by 7.4"
+		}
+		if usedBeforeTest && versionNil != 2 {
+			usedBeforeDefault = true
 		}
 		if usedBeforeDefault && why == "" {
 			why = "the version is used before the nil default is applied"
